@@ -28,6 +28,12 @@ impl Session {
     }
 
     pub fn commit_transaction(&mut self) -> QueryRunnerResult<()> {
+        // A transaction that already ended (it was rolled back, or committed before) has nothing
+        // left to commit: a COMMIT record behind its ABORT record would make recovery redo the
+        // rolled-back work.
+        if !self.ctx.can_commit() {
+            return Ok(());
+        }
         self.logger.log_commit()?;
         self.ctx.commit_transaction()?;
         self.logger.log_end()?;
